@@ -197,3 +197,10 @@ var _ = digest.SpecHashSlot // spec functions used by the contracts below
 //@   modifies nothing
 //@   ensures carries_the_frontier: frontier != nil ==> result1 == nil && result0 != nil && fresh(result0) && result0.Offset == frontier.Offset && result0.RunID == frontier.RunID && result0.UnitSeq == frontier.UnitSeq
 //@   ensures nil_is_an_error: frontier == nil ==> result1 != nil && result0 == nil
+
+//@ func NewBisyncNamespaceSeedFromCheckpoint
+//@   arith int
+//@   properties C17
+//@   modifies nothing
+//@   ensures carries_the_checkpoint: cpi != nil ==> result1 == nil && result0 != nil && fresh(result0) && result0.Offset == cpi.Offset && result0.RunID == cpi.RunId && result0.UnitSeq == 0
+//@   ensures nil_is_an_error: cpi == nil ==> result1 != nil && result0 == nil
